@@ -45,11 +45,15 @@ structure Converged (ev : List (Str × Evaluated)) (cfg cfg' : JCfg) : Prop wher
   failedKept : ∀ n e, alGet n ev = some ⟨e, none⟩ → alGet n cfg' = alGet n cfg
 
 /-- **Convergence, for every order of the updates.** From an agent state, for every evaluated map
-and *every permutation* `us` of the update list that `compare` emits for the read-back of that
-state, loading the rendered updates succeeds and the result is `Converged`. -/
+and *every permutation* `us` of the update list that `compare` emits for the read-back `inst` of
+that state, loading the rendered updates succeeds and the result is `Converged`. -/
 theorem run_converges {cfg : JCfg} (hs : AgentState cfg) (ev : List (Str × Evaluated)) (hv : EvValid ev)
-    (us : List Update) (hp : us.Perm (compare ev (viewCfg cfg))) :
+    {inst : List (Str × Installed)} (hi : readInstalled .fixed cfg = .ok inst)
+    (us : List Update) (hp : us.Perm (compare ev inst)) :
     ∃ cfg', applyAll cfg (us.map (render .fixed)) = .ok cfg' ∧ Converged ev cfg cfg' := by
+  rw [readInstalled_agentState hs] at hi
+  simp only [Except.ok.injEq] at hi
+  subst hi
   have hnd : (us.map Update.name).Nodup :=
     (List.Perm.nodup_iff (hp.map Update.name)).2 (compare_names_nodup ev _)
   have hsub : ∀ u ∈ us, u ∈ compare ev (viewCfg cfg) := fun u hu => hp.mem_iff.1 hu
@@ -143,7 +147,7 @@ theorem run_converges {cfg : JCfg} (hs : AgentState cfg) (ev : List (Str × Eval
 theorem run_converges_emitted {cfg : JCfg} (hs : AgentState cfg) (ev : List (Str × Evaluated))
     (hv : EvValid ev) : ∃ cfg', run .fixed cfg ev = .ok cfg' ∧ Converged ev cfg cfg' := by
   rw [run_eq hs]
-  exact run_converges hs ev hv _ (List.Perm.refl _)
+  exact run_converges hs ev hv (readInstalled_agentState hs) _ (List.Perm.refl _)
 
 /-- **Semantics.** After a run, an evaluated policy accepts a route iff one of the evaluated ranges
 of the route's address family matches it (first-match evaluation of the reference Junos model;
